@@ -445,6 +445,36 @@ def gen_chain(g, filters=0.0, roots=0.0, doc=None, small=False):
                     if k0 < 0.8:
                         return '@' + it, ('e', isp), (lambda x, isp=isp: bool(inner_reach(isp, [x])))
                     return '!@' + it, ('n', isp), (lambda x, isp=isp: not inner_reach(isp, [x]))
+                def ok_(b, x, sibs):
+                    return b[2](x, sibs) if getattr(b[2], 'sibs', False) else b[2](x)
+                if r.random() < 0.25:
+                    # a query with parenthesised sub-queries (Coq's FT): atoms are basic queries or `(` query `)`, `&&` and `||`
+                    # associate to the left; no blanks
+                    def g_atom(depth):
+                        if depth > 0 and r.random() < 0.45:
+                            tt, ts, tf = g_or(depth - 1)
+                            return '(' + tt + ')', ('p', ts), tf
+                        b = one_bq()
+                        return b[0], ('b', b[1]), (lambda x, sibs, b=b: ok_(b, x, sibs))
+
+                    def g_and(depth):
+                        tt, ts, tf = g_atom(depth)
+                        for _ in range(r.choice([0, 0, 1, 1, 2])):
+                            t2, s2, f2 = g_atom(depth)
+                            tt, ts, tf = tt + '&&' + t2, ('a', ts, s2), (lambda x, sibs, f1=tf, f2=f2: f1(x, sibs) and f2(x, sibs))
+                        return tt, ts, tf
+
+                    def g_or(depth):
+                        tt, ts, tf = g_and(depth)
+                        for _ in range(r.choice([0, 0, 1, 1, 2])):
+                            t2, s2, f2 = g_and(depth)
+                            tt, ts, tf = tt + '||' + t2, ('o', ts, s2), (lambda x, sibs, f1=tf, f2=f2: f1(x, sibs) or f2(x, sibs))
+                        return tt, ts, tf
+                    qtext, qtree, qtest = g_or(2)
+                    text += '[?(' + qtext + ')]'
+                    add_f((15, qtree))
+                    cur = [x for v in cur for sibs in [chain_children(v)] for x in sibs if qtest(x, sibs)]
+                    continue
                 dnf = [[one_bq() for _ in range(r.choice([1, 1, 2] if small else [1, 2, 2, 3]))] for _ in range(r.choice([1, 1, 2] if small else [1, 1, 2, 2, 3]))]
                 if all(b[1][0] in 'enc' for conj in dnf for b in conj) and r.random() < 0.6:
                     # the same query written with blanks (Coq's FQS): after `?(`, after `!`, around comparison operators, after every
@@ -481,8 +511,6 @@ def gen_chain(g, filters=0.0, roots=0.0, doc=None, small=False):
                 else:
                     text += '[?(' + '||'.join('&&'.join(b[0] for b in conj) for conj in dnf) + ')]'
                     add_f((10, [[b[1] for b in conj] for conj in dnf]))
-                def ok_(b, x, sibs):
-                    return b[2](x, sibs) if getattr(b[2], 'sibs', False) else b[2](x)
                 cur = [x for v in cur for sibs in [chain_children(v)] for x in sibs if any(all(ok_(b, x, sibs) for b in conj) for conj in dnf)]
                 continue
             if r.random() < 0.5:
@@ -685,7 +713,7 @@ class C01(EvalProp):
                     doc, text, spec, cur = gen_chain(g, filters=fl, roots=0.25 if r.random() < 0.5 else 0.0)
                 if cur or r.random() < 0.25:
                     break
-            has_filter = any(st[0] in (7, 8, 9, 10, 11, 12, 13, 14) for st in spec)      # C01_filter_retrieval: the text is Coq's fchain_path
+            has_filter = any(st[0] in (7, 8, 9, 10, 11, 12, 13, 14, 15) for st in spec)      # C01_filter_retrieval: the text is Coq's fchain_path
             nodollar = not has_filter and spec[0][0] != 4 and r.random() < 0.25
             if nodollar:
                 # C18_dollar_optional: the same path without its leading $ (a first dot name loses its dot, .* becomes *)
